@@ -51,6 +51,8 @@ pub struct ConnFaults {
     /// platform flavour: an expired socket timeout is reported as `TimedOut` (Windows) instead of
     /// `WouldBlock` (Unix)
     pub timeout_is_timed_out: bool,
+    /// duplicating the socket handle fails (the process is out of file descriptors)
+    pub clone_fails: bool,
 }
 
 pub struct ConnInfo {
@@ -1319,9 +1321,14 @@ pub(crate) fn sock_timeouts(k: &K, sock: usize) -> (Option<u64>, Option<u64>) {
     (g.socks[sock].read_timeout, g.socks[sock].write_timeout)
 }
 
-pub(crate) fn sock_clone(k: &K, sock: usize) {
+pub(crate) fn sock_clone(k: &K, sock: usize) -> bool {
     let mut g = k.lock();
+    if g.socks[sock].faults.clone_fails {
+        g.history.fault("socket-clone-fails");
+        return false;
+    }
     g.socks[sock].refs += 1;
+    true
 }
 
 fn client_eof(g: &mut State, sock: usize) {
